@@ -148,6 +148,14 @@ theorem centroid_sources_perm {β : Type} (f : (Int × Int) → Kw → β) (o1 o
 /-- both re-basing additions (x and y) are present in the loop -/
 theorem both_origins_added : originAdditions = 2 := by decide
 
+/-- TABLE OBLIGATION (regenerated from `centroid_quadratic`): a supplied start position becomes a pixel through `py2intround` only
+    (modelled by `Centroid.py2intround`, ties away from zero; its translation covariance on pixel coordinates is `C03.py2intround_translate`;
+    seed C17-r10 used Python's half-to-even `round`) -/
+theorem quad_start_rounding : quadStartUsesPy2intround = true := by decide
+
+-- the documented rounding at exact half pixels: 0.5 → 1, 2.5 → 3, 4.5 → 5 (half-to-even would give 0, 2, 4)
+example : py2intround (1 / 2) = 1 ∧ py2intround (5 / 2) = 3 ∧ py2intround (9 / 2) = 5 ∧ py2intround (-1 / 2) = -1 := by decide +kernel
+
 /-- `py2intround` rounds half away from zero -/
 example : py2intround (5/2) = 3 ∧ py2intround (-5/2) = -3 ∧ py2intround (7/4) = 2 := by decide +kernel
 
